@@ -173,7 +173,10 @@ def case(word):
     while i < n:
         c = word[i]
         if c == "\\" and depth == 0:
-            i += 1
+            # an escaped character: only its letter-ness matters (it is never a brace)
+            if i + 1 < n and word[i + 1].isalpha():
+                return 1 if word[i + 1].isupper() else 0
+            i += 2
             continue
         if c == "{":
             if depth == 0 and i + 1 < n and word[i + 1] == "\\":
@@ -242,3 +245,41 @@ def parse_ref(name):
         if len(secs) == 3:
             out["jr"] = secs[1]
     return out
+
+
+def ambiguous_case(name):
+    """True when the name uses constructs on which the case rule is not pinned down by the
+    statement: a '{\\' below brace depth 1, a brace group inside a special character, or an
+    escaped letter inside a non-special brace group."""
+    depth = 0
+    special_at = None
+    i, n = 0, len(name)
+    while i < n:
+        c = name[i]
+        if c == "\\":
+            if depth > 0 and special_at is None and i + 1 < n and name[i + 1].isalpha():
+                return True
+            i += 2
+            continue
+        if c == "{":
+            if i + 1 < n and name[i + 1] == "\\":
+                if depth >= 1:
+                    return True
+                special_at = depth
+                depth += 1
+                i += 2          # the control sequence's backslash belongs to the special character
+                # skip the control sequence character so that an escaped letter here is not flagged
+                if i < n:
+                    i += 1
+                continue
+            if special_at is not None:
+                return True
+            depth += 1
+        elif c == "}":
+            depth -= 1
+            if special_at is not None and depth == special_at:
+                special_at = None
+            if depth < 0:
+                return False
+        i += 1
+    return False
